@@ -112,6 +112,7 @@ type hworld struct {
 	st     *fs3.Store
 	prefix string
 	epn    int
+	cache  int // node_cache_entries of the writers' tables (0 = none)
 	ws     []*hwriter
 	stmts  []HStmt // in execution order
 	log    []string
@@ -135,7 +136,7 @@ func (w *hworld) addWriter() (*hwriter, error) {
 	w.ws = append(w.ws, hw)
 	// a writer that opens now merges everything committed so far
 	w.mergeInto(hw)
-	spec := TableSpec{Name: hw.table, Cols: "k PRIMARY KEY, a, b, c", Store: w.st.Name, Client: hw.client, Prefix: w.prefix, EPN: w.epn}
+	spec := TableSpec{Name: hw.table, Cols: "k PRIMARY KEY, a, b, c", Store: w.st.Name, Client: hw.client, Prefix: w.prefix, EPN: w.epn, Cache: w.cache}
 	if err := hw.conn.Create(spec); err != nil {
 		return hw, err
 	}
